@@ -106,6 +106,11 @@ def cases(tier, seed):
         for n in ns:
             for bad in ('none', 'first', 'last'):
                 yield dict(kind='large', region=rname, n=n, bad=bad)
+    # explicit tol= keyword: magnitudes less than / more than tol away from every edge
+    for rname in ('cart2x2', 'quadL1'):
+        for grid in ('m495', 'm567', 'm41'):
+            for t in (1e-3, 1e-2, 0.04, 1e-9):
+                yield dict(kind='tol', region=rname, grid=grid, tol=t)
     # catalogs stored in single precision
     for rname in ('cart2x2', 'cart6x5', 'quadL1'):
         for grid in ('m495', 'm567', 'm41'):
@@ -520,10 +525,85 @@ def run_f32(case, failures, hsh):
     return evals
 
 
+def run_tol(case, failures, hsh):
+    """The documented tol= keyword of magnitude_counts / spatial_magnitude_counts. For every edge e the catalog holds
+    e - tol/2, e - 2 tol, e, e + tol/2 (cell centres). Judged: only what the statement says for ANY one binning rule -
+    the column sums of the space-magnitude array equal the magnitude histogram taken with the same tol, region-bound and
+    explicit grids give the same arrays, the total is the number of events, and an event is rejected by the gridding exactly
+    when the histogram leaves it uncounted. One catalog per magnitude value too, so that a rejection is attributed."""
+    rname, grid, t = case['region'], case['grid'], case['tol']
+    edges = MAG_GRIDS[grid]
+    quad = not rname.startswith('cart')
+    if quad:
+        bs = [rq.bounds(k) for k in QUAD[rname]]
+        centres = [((b[0] + b[2]) / 2, (b[1] + b[3]) / 2) for b in bs]
+    else:
+        reg0 = cart_regions()[rname]
+        centres = [(x + DH / 2, y + DH / 2) for i, (x, y) in enumerate(reg0['cells']) if (reg0['flags'] is None or reg0['flags'][i] == 1)]
+    mvals = []
+    for e in edges:
+        mvals += [e - t / 2, e - 2 * t, e, e + t / 2]
+    cls = ('quadtree' if quad else 'cartesian') + ',explicit-tol'
+    evals = 0
+    groups = [mvals] + [[m] for m in mvals]
+    for ms in groups:
+        evs = [(f'e{i}', 1262304000000 + i, centres[i % len(centres)][1], centres[i % len(centres)][0], 10.0, m) for i, m in enumerate(ms)]
+        obs = {}
+        for bound in (True, False):
+            reg = build_region(rname, edges if bound else None)
+            kw = dict(tol=t) if bound else dict(mag_bins=numpy.array(edges), tol=t)
+            rep = dict(case)
+
+            def fail(api, what, detail):
+                failures.append(Fail(f'CSEPCatalog.{api}|{what}|{cls}', f'{detail} | region={rname} grid={grid} bound={bound} tol={t} edges={edges} magnitudes={ms}', rep))
+            try:
+                mc = numpy.asarray(fixtures.catalog(evs, region=reg).magnitude_counts(**kw), dtype=float)
+            except Exception as e:
+                fail('magnitude_counts', type(e).__name__, f'{type(e).__name__}: {e}')
+                continue
+            try:
+                sm = numpy.asarray(fixtures.catalog(evs, region=reg).spatial_magnitude_counts(**kw), dtype=float)
+            except ValueError:
+                sm = None
+            except Exception as e:
+                fail('spatial_magnitude_counts', type(e).__name__, f'{type(e).__name__}: {e}')
+                continue
+            evals += 2
+            hsh.update(mc.tobytes() + (b'rejected' if sm is None else sm.tobytes()))
+            obs[bound] = (mc, sm)
+            uncounted = mc.sum() < len(evs)
+            if mc.sum() > len(evs):
+                fail('magnitude_counts', 'total-exceeds-number-of-events', f'{mc.tolist()} for {len(evs)} events')
+            if sm is None and not uncounted:
+                fail('spatial_magnitude_counts', 'rejects-a-catalog-the-histogram-counts-completely', f'magnitude_counts(tol)={mc.tolist()} counts all {len(evs)} events, spatial_magnitude_counts(tol) raised ValueError')
+            elif sm is not None and uncounted:
+                fail('spatial_magnitude_counts', 'below-range-event-not-rejected', f'magnitude_counts(tol)={mc.tolist()} leaves events uncounted, gridding returned total {sm.sum()}')
+            elif sm is not None:
+                if sm.sum() != len(evs):
+                    fail('spatial_magnitude_counts', 'total-differs-from-number-of-events', f'total {sm.sum()} for {len(evs)} events')
+                if not numpy.array_equal(sm.sum(axis=0), mc):
+                    fail('spatial_magnitude_counts', 'column-sums-differ-from-magnitude-counts', f'{sm.sum(axis=0).tolist()} vs {mc.tolist()}')
+        if True in obs and False in obs:
+            (mb, sb), (me, se) = obs[True], obs[False]
+            same = numpy.array_equal(mb, me) and ((sb is None) == (se is None)) and (sb is None or numpy.array_equal(sb, se))
+            if not same:
+                failures.append(Fail(f'CSEPCatalog.spatial_magnitude_counts|region-bound-and-explicit-grid-differ|{cls}',
+                                     f'region-bound: mc={mb.tolist()} sm={"rejected" if sb is None else sb.sum(axis=0).tolist()}; explicit same edges: mc={me.tolist()} sm={"rejected" if se is None else se.sum(axis=0).tolist()} | region={rname} grid={grid} tol={t} magnitudes={ms}', dict(case)))
+    return evals
+
+
 def run_case(case):
     failures = []
     hsh = hashlib.sha1()
     evals = states = nontriv = 0
+    if case['kind'] == 'tol':
+        evals = run_tol(case, failures, hsh)
+        seen, uniq = set(), []
+        for f in failures:
+            if f['signature'] not in seen:
+                seen.add(f['signature'])
+                uniq.append(f)
+        return result(evals=evals, states=1 + 4 * len(MAG_GRIDS[case['grid']]), transitions=evals, nontrivial=1, failures=uniq, digest=hsh.hexdigest(), sample=dict(case))
     if case['kind'] == 'f32':
         evals = run_f32(case, failures, hsh)
         return result(evals=evals, states=2, transitions=evals, nontrivial=2, failures=failures, digest=hsh.hexdigest(), sample=dict(case))
